@@ -89,9 +89,18 @@ type Vals struct {
 	MaxLen, MinLen, MaxItems, MinItems *int64
 	Pattern                            string
 	Enum                               []EnumV
+	// keywords the analyser does not look at (outside the model: they must never produce a difference)
+	MultipleOf  float64
+	UniqueItems bool
 }
 
 func (v Vals) put(m map[string]interface{}) {
+	if v.MultipleOf != 0 {
+		m["multipleOf"] = v.MultipleOf
+	}
+	if v.UniqueItems {
+		m["uniqueItems"] = true
+	}
 	if v.Max != nil {
 		m["maximum"] = *v.Max
 	}
